@@ -274,6 +274,10 @@ PKGS = {
     "plug_y": {"mods": {"__init__": ["Alpha"]}},
     "pl": {"mods": {"__init__": ["Eps"]}},
     "other": {"mods": {"__init__": ["Beta:Renamed"], "plug": ["Zeta"]}},
+    # library names that differ only where one has a dot (a dot is the only character of a module path that means something in a pattern)
+    "ext": {"mods": {"__init__": [], "cmds": ["Shared", "Inner"]}},
+    "ext_cmds": {"mods": {"__init__": ["Shared", "Other"]}},
+    "extxcmds": {"mods": {"__init__": ["Third"]}},
 }
 
 
@@ -294,7 +298,7 @@ def expected_library(final):
     return lib, dup
 
 
-def cases(tier, seed=0):
+def cases(tier, seed=0, focus=False):
     import random
 
     rnd = random.Random(99 + seed)
@@ -304,9 +308,26 @@ def cases(tier, seed=0):
     hist_pool = [[], [["program", ["plugx"]]], [["program", ["plug_y"]], ["program", ["other"]]], [["program", ["pl"]], ["define", "plugz.late", "Late"]],
                  [["program", ["other", "plugx"]]], [["define", "plug", "Late"]], [["program", ["plug"]], ["program", ["plug"]]],
                  [["define", "plug.sub", "Beta"]], [["program", ["plug_y", "pl"]], ["program", ["plugx"]], ["define", "plugx", "Gamma"]]]
-    chosen = subsets if tier != "quick" else rnd.sample(subsets, 12)
+    # scenarios every run executes: prefix / dotted-name neighbours loaded first, and classes defined between two constructions
+    core = [
+        ([["program", ["plugx"]]], ["plug"]),
+        ([["program", ["plug_y"]], ["program", ["pl"]]], ["plug"]),
+        ([["program", ["plug"]]], ["pl"]),
+        ([["program", ["ext_cmds"]], ["program", ["extxcmds"]]], ["ext.cmds"]),
+        ([["program", ["ext_cmds"]]], ["ext"]),
+        ([["program", ["ext.cmds"]]], ["ext_cmds"]),
+        ([["program", ["plug"]], ["define", "plug", "Late"]], ["plug"]),
+        ([["program", ["plug"]], ["define", "plug.sub", "Later"], ["program", ["plug"]]], ["plug"]),
+        ([["program", ["plug"]], ["define", "plug_y", "Beta"]], ["plug", "plug_y"]),
+        ([["program", ["other"]]], ["other.plug"]),
+        ([], ["plug", "plug_y"]),
+        ([["program", ["plug", "plugx"]]], ["plugx", "plug"]),
+    ]
+    for h, final in core:
+        out.append({"packages": PKGS, "history": h, "final": final})
+    chosen = subsets if (tier != "quick" or focus) else rnd.sample(subsets, 8)
     for final in chosen:
-        hs = hist_pool if tier != "quick" else rnd.sample(hist_pool, 3)
+        hs = hist_pool if (tier != "quick" or focus) else rnd.sample(hist_pool, 2)
         for h in hs:
             out.append({"packages": PKGS, "history": h, "final": final})
     return out
